@@ -14,6 +14,7 @@ package docx
 //@   property C15
 //@   flags callsites
 //@   callsite strings.Repeat(s, count) requires level_1_to_6: s == "#" ==> 1 <= count && count <= 6
+//@   callsite strings.Repeat(s, count) requires configured_maximum_applies_after_the_offset: s == "#" && mdOpts.MaxHeadingLevel > 0 ==> count <= mdOpts.MaxHeadingLevel
 
 // ---- C15: everything written into a pipe table is a structural literal or escaped cell text ----
 // total number of columns a row occupies: every cell counts its span (at least 1), covered cells included
@@ -23,7 +24,6 @@ package docx
 // gets exactly colCount of them, whatever spans and covered cells it contains.
 //@ func (*ParsedTable) ToMarkdown
 //@   property C15
-//@   flags nosafety
 //@   count cells: WriteString(s) when s == " |" || s == " --- |"
 //@   callsite WriteString(s) requires cell_or_structure: s == "|" || s == " " || s == " |" || s == "\n" || s == " --- |" || (forall k int :: {s[k]} 0 <= k && k < len(s) ==> s[k] != 10 && (s[k] == '|' ==> k >= 1 && s[k-1] == 92))
 //@   loop 0:
@@ -60,7 +60,6 @@ package docx
 // together at most maxTableColumns plus one column per cell (so bookkeeping and rendering stay linear in the input) ----
 //@ func (*TableParser) parseCell results (res)
 //@   property C02
-//@   flags nosafety
 //@   ensures span_is_bounded: 1 <= res.ColSpan && res.ColSpan <= maxTableColumns && res.RowSpan >= 1
 //@   loop 0:
 //@     invariant parsed.ColSpan == entry(parsed.ColSpan) && parsed.RowSpan == entry(parsed.RowSpan)
@@ -69,7 +68,6 @@ package docx
 //@ spec rec prefix func docxRowWidth(cells []ParsedTableCell, n int) int = n <= 0 ? 0 : docxRowWidth(cells, n - 1) + cells[n-1].ColSpan
 //@ func (*TableParser) parseRow results (res)
 //@   property C02
-//@   flags nosafety
 //@   ensures row_width_is_bounded: len(res.Cells) == len(row.Cells) && docxRowWidth(res.Cells, len(res.Cells)) <= maxTableColumns + len(res.Cells)
 //@   loop 0:
 //@     invariant len(parsed.Cells) == $i && width == docxRowWidth(parsed.Cells, len(parsed.Cells)) && 0 <= width && width <= maxTableColumns + $i
@@ -78,7 +76,6 @@ package docx
 // part, and only for the side that was asked for; nothing is deleted otherwise ----
 //@ func (*Reader) shouldExcludeParagraph results (r0)
 //@   property C11
-//@   flags nosafety
 //@   atreturn#3 equals_a_header_line: opts.ExcludeHeaders && headerLine != "" && sameseq(trimmedText, headerLine)
 //@   atreturn#4 equals_a_footer_line: opts.ExcludeFooters && footerLine != "" && sameseq(trimmedText, footerLine)
 //@   ensures nothing_asked_nothing_deleted: !opts.ExcludeHeaders && !opts.ExcludeFooters ==> !r0
@@ -103,7 +100,6 @@ package docx
 //@     invariant level >= 0
 //@ func (*Reader) processParagraph results (res)
 //@   property C15, C02
-//@   flags nosafety
 //@   ensures list_level_is_bounded: 0 <= res.ListLevel && res.ListLevel <= maxListLevel
 //@   atreturn#1 outline_level_is_zero_based: (isnil(r.styleResolver) ? parsed.StyleID == "" : !isnil(resolvedStyle) && !resolvedStyle.IsHeading) && ppr.OutlineLvl.Val != "" && parseOutlineLevel(ppr.OutlineLvl.Val) >= 0 ==> parsed.IsHeading && parsed.Level == parseOutlineLevel(ppr.OutlineLvl.Val) + 1
 //@   loop 0:
